@@ -25,8 +25,8 @@ def run(rep):
             (jd.jd_step, "add"), (jd.jd_step, "sub"), (wiring.tfi_wiring, None)]
     results = base.run_obligations(rep, obls)
     cands = [c for x in results for c in x["cands"]]
-    if cands:
-        if not pp.good_day_grid(rep):
+    if cands or any(x["inconclusive"] for x in results) or rep.tier == "thorough":
+        if not pp.good_day_grid(rep) and cands:
             rep.inconclusive.append("solver counterexamples of the good-day search were not reproduced through the public API; first: %r" % (cands[0],))
     rep.samples = [{"obligation": o["name"], "status": o["status"], "paths": o.get("paths")} for o in rep.obligations]
 
